@@ -156,6 +156,21 @@ def predicates(case, impl):
     out = []
     if impl.get("raise"):
         return out
+    site0 = _site(case)
+    if impl.get("time") and impl.get("t_tot") is not None and impl.get("dt"):
+        tmax = max(impl["time"]) * 3600.0
+        if tmax > impl["t_tot"] + 2 * impl["dt"] + 1e-9 * max(1.0, impl["t_tot"]):
+            out.append(Failure(clause="reported_time_within_process", key=f"reported_time_within_process|{site0}|{case['config']}",
+                               detail=f"last reported time {tmax:.1f} s of a process of t_tot = {impl['t_tot']:.1f} s"))
+    b = impl.get("bounds") or {}
+    if b.get("ice_at_warm_nodes", 0) > 0 or b.get("liquidus_residual", 0.0) > 1e-9:
+        # the balance counts "the latent heat of the ice present": the reported (T, w_i) must be a state of the
+        # enthalpy function, i.e. the ice fraction that belongs to the reported temperature
+        out.append(Failure(
+            clause="enthalpy_state_consistent", key=f"enthalpy_state_consistent|{site0}|{case['config']}",
+            detail=(f"{b.get('ice_at_warm_nodes', 0)} reported nodes warmer than T_eq_l carry ice; ice fraction and "
+                    f"temperature are off the liquidus by up to {b.get('liquidus_residual', 0.0):.3g}: latent heat "
+                    f"of ice that has melted is still counted (enthalpy off by Dh*w_i per such node)")))
     e = impl.get("energy")
     if not e:
         return out
